@@ -29,6 +29,8 @@ pub struct GenCfg {
     pub dubious_pct: u64,
     /// Hand out wide child resources so that siblings often nest/overlap.
     pub wide_children: bool,
+    /// Chance (percent) that all CA certificates of a world use one name.
+    pub same_names_pct: u64,
 }
 
 impl Default for GenCfg {
@@ -37,7 +39,7 @@ impl Default for GenCfg {
             max_tals: 2, max_cas: 8, max_depth: 3, max_objs: 4,
             ta_all_pct: 40, rrdp_pct: 50, shared_repos: true, chain: false,
             dubious_pct: 0,
-            wide_children: false,
+            wide_children: false, same_names_pct: 0,
         }
     }
 }
@@ -85,6 +87,8 @@ impl<'a> Gen<'a> {
 
     pub fn world(&mut self) -> World {
         let mut world = World::default();
+        world.same_names = self.cfg.same_names_pct > 0
+            && self.rng.chance(self.cfg.same_names_pct, 100);
         let n_repos = if self.cfg.shared_repos { 2 } else { 4 };
         for r in 0..n_repos {
             world.repos.push(RrdpRepoSpec {
